@@ -48,6 +48,7 @@ def packages():
         ("record", [("a", ("list", U8)), ("b", ("option", STR)), ("c", ("tuple", [U8, STR]))]),
         ("variant", [("x", None), ("y", U8), ("z", STR)]),
         ("variant", [("only", ("list", U32))]),
+        ("variant", [("p", U8), ("bare", None), ("q", STR), ("last", None)]),
         ("enum", ["a", "b", "c"]),
         ("flags", ["a", "b"]),
         U32,
@@ -98,6 +99,15 @@ def packages():
                     iface("m", ("use", "types", [("r", "r2")]), ("type", "mt", ("list", ref("r2")))),
                     iface("d", ("use", "l", [("lt", None)]), ("use", "m", [("mt", None)]), ("use", "types", [("r", None)]),
                           ("func", "g", [("x", ref("lt")), ("y", ref("mt"))], ref("r")))]))
+    # a chain of four interfaces handing a record and a resource on, unrenamed and renamed
+    out.append(pkg([iface("a", ("type", "t", ("record", [("x", U32)])), ("res", "r", [("method", "m", [], U32)])),
+                    iface("b", ("use", "a", [("t", None), ("r", None)])),
+                    iface("c", ("use", "b", [("t", None), ("r", None)])),
+                    iface("d", ("use", "c", [("t", None), ("r", None)]), ("func", "f", [("x", ref("t")), ("y", ("borrow", "r"))], ref("r")))]))
+    out.append(pkg([iface("a", ("type", "t", ("variant", [("n", None), ("s", STR)])), ("res", "r", [])),
+                    iface("b", ("use", "a", [("t", "t1"), ("r", "r1")]), ("func", "fb", [("x", ref("r1"))], None)),
+                    iface("c", ("use", "b", [("t1", "t2"), ("r1", "r2")]), ("type", "l", ("list", ref("t2")))),
+                    iface("d", ("use", "c", [("t2", None), ("r2", "r3"), ("l", None)]), ("func", "f", [("x", ref("l")), ("y", ("borrow", "r3"))], ("option", ref("r3"))))]))
     # ---- worlds
     fi = iface("i", ("func", "x", [("a", U32)], U32))
     fj = iface("j", ("type", "r", ("record", [("a", U32)])), ("func", "y", [("b", ref("r"))], None))
